@@ -7,7 +7,7 @@ R8.2 each child once, error first: exactly one recursive call site, inside the l
      edge reaches the return without passing another recursive call or the operator call;
 R8.3 no short-circuit: the operator is not read before the loop's exit edge; Operator::eval[_mut] is called once, after the loop,
      with all collected arguments (pushed in iteration order) and the same context;
-R8.4 op-assign order inside eval_mut: read X, compute, write X (dominance chain) - shared with C04 R4.4;
+R8.4 op-assign order inside eval_mut: read X, compute, write X; a failing step prevents the later ones (the C04 R4.4 case analysis);
 R8.5 Context::call_function is invoked once per FunctionIdentifier evaluation with arguments[0] - shared with C09 R9.1;
      effects persist: the mutable path neither clones nor restores the context.
 R8.6 operator application is strict in both operands (no value-level short-circuit): for every binary operator other than
@@ -16,7 +16,7 @@ R8.6 operator application is strict in both operands (no value-level short-circu
 """
 import tables
 from absint import Interp, SYM, C, ADT, OK, ERR, fmt, is_adt, Budget
-from mirlib import (short, path_endswith, callee_matches, op_place, resolve_place, def_roots, question_mark, switch_on_discriminant,
+from mirlib import (short, path_endswith, callee_matches, op_place, resolve_place, def_roots, question_mark, switch_on_discriminant, continue_payload_local,
                     is_local, same_place)
 
 EXPLANATION = ('path/dominance rules over the MIR of the two recursive evaluators: loop shape (slice iterator over self.children()), single recursive call site under `?`, '
@@ -39,7 +39,126 @@ def run(ctx):
     r86(ctx, prog)
 
 
+def evaluator_collect(ctx, prog, f, name, opname):
+    """second accepted idiom: self.children().iter().map(|c| c.<evaluator>(context)).collect::<Result<Vec<_>, _>>()? followed by the
+    operator application. Returns True when the function has this shape (and reports its obligations), False otherwise.
+    std facts used: slice::Iter yields in index order, Map applies the closure to each item once and lazily, and collecting into
+    Result<Vec<_>, E> pulls items in order, stops at the first Err and returns it (core::iter::adapters::GenericShunt)."""
+    inst = 'Node::' + name
+    calls = list(f.calls())
+    maps = [(b, t) for b, t in calls if t['callee']['name'] == 'map' and path_endswith(t['callee'].get('trait') or '', 'iter::Iterator')]
+    cols = [(b, t) for b, t in calls if t['callee']['name'] == 'collect' and path_endswith(t['callee'].get('trait') or '', 'iter::Iterator')]
+    if len(maps) != 1 or len(cols) != 1:
+        return False
+    (mb, mt), (cb, ct) = maps[0], cols[0]
+    names = [t['callee']['name'] for _, t in calls]
+    extra = sorted(set(names) - (ACCEPTED | {'map', 'collect'}))
+    ctx.check(not extra, 'R8.1', inst + ':callees', 'callee', 'only the accepted callees occur (no reordering/skipping adaptor); unexpected: %s' % extra, span=f.span)
+    ctx.check('slice::Iter<' in (mt['callee'].get('self_ty') or ''), 'R8.1', inst + ':iterator', 'iterator', 'the mapped iterator is a std::slice::Iter (found %s)' % mt['callee'].get('self_ty'), span=mt['span'])
+    # source of the iterator: iter(children(self))
+    def source_ok(local, depth=4):
+        rs = def_roots(f, local)
+        if len(rs) != 1 or rs[0][1] != 'term' or depth == 0:
+            return False
+        t = rs[0][2]
+        if callee_matches(t, ['tree::Node::<NumericTypes>::children']):
+            return resolve_place(f, op_place(t['args'][0]))['l'] == 1
+        if t['callee']['name'] in ('into_iter', 'iter') and len(t['args']) == 1:
+            rsrc = resolve_place(f, op_place(t['args'][0]))
+            if rsrc['l'] == 1 and any(isinstance(p_, dict) and p_.get('name') == 'children' for p_ in rsrc['p']):
+                return True
+            return source_ok(rsrc['l'], depth - 1)
+        return False
+    recv = resolve_place(f, op_place(mt['args'][0]))
+    ctx.check(not recv['p'] and source_ok(recv['l']), 'R8.1', inst + ':iterator-source', 'source', 'the iterator is obtained directly from self.children() (no adaptor in between)', span=mt['span'])
+    # the closure: one call, the recursive evaluator on its item with the captured context, result returned as is
+    cl_pl = op_place(mt['args'][1])
+    cl_roots = def_roots(f, cl_pl['l']) if cl_pl is not None else []
+    body = None
+    captured_ctx = False
+    if len(cl_roots) == 1 and cl_roots[0][1] != 'term' and cl_roots[0][0] != 'arg' and cl_roots[0][2].get('k') == 'aggregate' and cl_roots[0][2].get('agg') == 'closure':
+        rv = cl_roots[0][2]
+        body = prog.by_path.get(rv.get('def') or rv.get('adt') or '')
+        caps = [resolve_place(f, op_place(o)) for o in rv.get('ops', []) if op_place(o) is not None]
+        captured_ctx = len(caps) == 1 and caps[0]['l'] == 2
+    good = body is not None and captured_ctx
+    if good:
+        bcalls = list(body.calls())
+        good = len(bcalls) == 1 and bcalls[0][1]['callee'].get('local') and short(bcalls[0][1]['callee']['def']) == short(f.path) and bcalls[0][1]['dest']['l'] == 0 and not bcalls[0][1]['dest']['p']
+        if good:
+            bt = bcalls[0][1]
+            item = resolve_place(body, op_place(bt['args'][0]))
+            cx = resolve_place(body, op_place(bt['args'][1]))
+            good = item['l'] == 2 and cx['l'] == 1 and body.term(bt['target'])['k'] == 'return'
+    ctx.check(good, 'R8.2', inst + ':recursive-call', 'count', 'the mapped closure makes exactly one call, the recursive evaluator on the yielded child with the same context, and returns its result unchanged', span=mt['span'])
+    ctx.check(good, 'R8.2', inst + ':child', 'child', 'the recursive call evaluates exactly the element yielded by the iterator', span=mt['span'])
+    ctx.check(good, 'R8.2', inst + ':context', 'context', 'the recursive call receives the same context', span=mt['span'])
+    # collect::<Result<Vec<_>, _>>() on the map, through `?`
+    src = resolve_place(f, op_place(ct['args'][0]))
+    into = (ct['callee'].get('args') or [''])[-1]
+    okc = src['l'] == mt['dest']['l'] and into.startswith('std::result::Result<std::vec::Vec<')
+    ctx.check(okc, 'R8.3', inst + ':collect', 'push', 'the child values are collected in order into Result<Vec<_>, _> (stops at the first error)', span=ct['span'])
+    qm = question_mark(f, cb)
+    if not ctx.check(qm is not None and qm['brk'] is not None, 'R8.2', inst + ':question-mark', 'try', 'the collected result goes through `?`', span=ct['span']):
+        return True
+    after_break = f.reachable_from(qm['brk'])
+    bad = [b for b, t in calls if b in after_break and (t['callee']['name'] in ('eval', 'eval_mut', name, 'next', 'push', 'map', 'collect'))]
+    rets = [b for b in after_break if f.term(b)['k'] == 'return']
+    ctx.check(not bad and bool(rets), 'R8.2', inst + ':first-error-wins', 'error-path', 'after a failing child the function returns that error without evaluating anything else', span=f.term(qm['switch'])['span'])
+    fr = [(b, t) for b, t in calls if b in after_break and t['callee']['name'] == 'from_residual']
+    ctx.check(len(fr) == 1 and fr[0][1]['dest']['l'] == 0, 'R8.2', inst + ':error-value', 'residual', 'the returned error is the child\'s residual', span=f.span)
+    # operator consulted only after all children are evaluated
+    exit_edge = (qm['switch'], qm['cont'])
+    op_reads = [(b, t) for b, t in calls if t['callee']['name'] in ('operator', opname, 'eval', 'eval_mut')]
+    early = [b for b, _ in op_reads if not f.edge_dominates(exit_edge, b)] + [b for b in _operator_field_reads(f) if not f.edge_dominates(exit_edge, b)]
+    ctx.check(not early and op_reads, 'R8.3', inst + ':no-short-circuit', 'operator-before-loop-end', 'the operator is not consulted before all children are evaluated (reads before the Continue edge of `?`: bb%s)' % early, span=f.span)
+    evs = [(b, t) for b, t in calls if t['callee'].get('local') and t['callee']['name'] == opname and 'Operator' in t['callee']['def']]
+    good = len(evs) == 1
+    if good:
+        eb, et = evs[0]
+        a1 = resolve_place(f, op_place(et['args'][1]))
+        a2 = resolve_place(f, op_place(et['args'][2]))
+        payload = continue_payload_local(f, qm)
+        vec_roots = {r[2]['op']['pl']['l'] if False else None for r in []}
+        # the argument vector is the Continue payload of the `?` (possibly moved into a named local)
+        def from_payload(l, depth=3):
+            if l in payload:
+                return True
+            if depth == 0:
+                return False
+            for r in def_roots(f, l):
+                if r[1] != 'term' and r[0] != 'arg' and r[2].get('k') == 'use' and op_place(r[2]['op']) is not None:
+                    if from_payload(op_place(r[2]['op'])['l'], depth - 1):
+                        return True
+            return False
+        good = from_payload(a1['l']) and a2['l'] == 2 and et['dest']['l'] == 0
+    ctx.check(good, 'R8.3', inst + ':apply', 'apply', 'Operator::%s is called once, after all children, with the collected arguments and the context, and its result is returned' % opname, span=f.span)
+    ctx.check('clone' not in names, 'R8.5', inst + ':no-context-clone', 'clone', 'the evaluator does not clone or restore the context: effects of evaluated children persist', span=f.span)
+    return True
+
+
+def _operator_field_reads(f):
+    out = []
+    for blk in f.blocks:
+        if blk['cleanup']:
+            continue
+        for st in blk['stmts']:
+            if st['k'] == 'assign':
+                rv = st['rv']
+                pls = []
+                if rv['k'] in ('ref', 'discriminant'):
+                    pls.append(rv['pl'])
+                elif rv['k'] == 'use' and op_place(rv['op']) is not None:
+                    pls.append(op_place(rv['op']))
+                for pl in pls:
+                    if pl['l'] == 1 and any(isinstance(p, dict) and p.get('name') == 'operator' for p in pl['p']):
+                        out.append(blk['id'])
+    return out
+
+
 def evaluator(ctx, prog, f, name, opname):
+    if evaluator_collect(ctx, prog, f, name, opname):
+        return
     inst = 'Node::' + name
     calls = list(f.calls())
     names = [t['callee']['name'] for _, t in calls]
@@ -143,40 +262,11 @@ def evaluator(ctx, prog, f, name, opname):
 
 
 def r84(ctx, prog):
-    f = prog.fn('operator::Operator::<NumericTypes>::eval_mut')
-    if f is None:
-        ctx.unrecognised('R8.4', 'Operator::eval_mut', 'missing', 'not found')
-        return
-    calls = list(f.calls())
-    reads = []
-    for b, t in calls:
-        if t['callee'].get('local') and t['callee']['name'] == 'eval' and 'Operator' in t['callee']['def']:
-            recv = op_place(t['args'][0])
-            roots = def_roots(f, resolve_place(f, recv)['l']) if recv is not None else []
-            kinds = {r[2].get('vname') for r in roots if r[1] != 'term' and r[0] != 'arg' and r[2].get('k') == 'aggregate'}
-            for r in roots:
-                if r[1] != 'term' and r[0] != 'arg' and r[2].get('k') == 'use':
-                    from mirlib import op_const
-                    c = op_const(r[2]['op'])
-                    if c and c.get('k') == 'unevaluated' and c.get('promoted') is not None:
-                        v = Interp(prog).promoted(f, c['promoted'])
-                        if v[0] == 'adt':
-                            kinds.add(v[3])
-            reads.append((b, t, kinds))
-    read_calls = [(b, t) for b, t, k in reads if k == {'VariableIdentifierRead'}]
-    op_calls = [(b, t, k) for b, t, k in reads if k and k != {'VariableIdentifierRead'}]
-    sets = [(b, t) for b, t in calls if t['callee']['name'] == 'set_value']
-    ctx.floor('R8.4', 'op_assign_operator_calls', len(op_calls), 8)
-    if len(read_calls) != 1:
-        ctx.unrecognised('R8.4', 'eval_mut:read', 'shape', 'expected one VariableIdentifierRead evaluation, found %d' % len(read_calls), span=f.span)
-        return
-    rb = read_calls[0][0]
-    qm_r = question_mark(f, rb)
-    for b, t, k in op_calls:
-        ctx.check(qm_r is not None and f.edge_dominates((qm_r['switch'], qm_r['cont']), b), 'R8.4', 'eval_mut:%s:after-read' % sorted(k)[0], 'order', 'the operation is evaluated only after the variable was read successfully', span=t['span'])
-    # the write after the operations: the op-assign set_value is dominated by the read and reachable from every operation
-    w = [(b, t) for b, t in sets if f.dominates(rb, b)]
-    ctx.check(len(w) == 1 and all(w[0][0] in f.reachable_from(b) for b, _, _ in op_calls), 'R8.4', 'eval_mut:write-last', 'order', 'the variable is written after the operation (set_value dominated by the read, reached from every operation)', span=f.span)
+    """op-assign order: the C04 R4.4 case analysis (read X at Context::get_value, then Operator::<op>.eval on (old X, e), then
+    set_value(X, result); a failing step ends the evaluation without the later ones), reported here under R8.4"""
+    from rules.c04 import r44
+    from rules.c05 import _Renamed
+    r44(_Renamed(ctx, 'R8.4'), prog)
 
 
 def r85(ctx, prog):
